@@ -13,14 +13,15 @@ sys.path.insert(0, os.path.join(V, "lib"))
 import pkverif
 args = [a for a in sys.argv[1:] if not a.startswith("--")]
 props = sorted(pkverif.PROPS)
-tier, jobs, inplace = "quick", 3, False
+tier, jobs, inplace, sdir = "quick", 3, False, "seeded"
 for a in sys.argv[1:]:
     if a.startswith("--props="): props = a.split("=")[1].split(",")
     if a.startswith("--tier="): tier = a.split("=")[1]
     if a.startswith("--jobs="): jobs = int(a.split("=")[1])
     if a == "--inplace": inplace = True
-muts = args or sorted(os.path.basename(d) for d in glob.glob(os.path.join(V, "seeded", "C*-m*")))
-resf = os.path.join(V, "seeded", "RESULTS.json")
+    if a.startswith("--dir="): sdir = a.split("=")[1]     # e.g. --dir=benign (behaviour-preserving refactors: nothing may be flagged)
+muts = args or sorted(os.path.basename(os.path.dirname(d)) for d in glob.glob(os.path.join(V, sdir, "*", "patch.diff")))
+resf = os.path.join(V, sdir, "RESULTS.json")
 results = json.load(open(resf)) if os.path.exists(resf) else {}
 
 def run_checks(env, row):
@@ -34,7 +35,7 @@ def run_checks(env, row):
             row[p]["err"] = r.stderr[-400:]
 
 def one(m):
-    patch = os.path.join(V, "seeded", m, "patch.diff")
+    patch = os.path.join(V, sdir, m, "patch.diff")
     row = {}
     if inplace:
         assert subprocess.run(["git", "-C", "/repo", "status", "--porcelain", "--untracked-files=no"],
@@ -47,7 +48,7 @@ def one(m):
         finally:
             subprocess.check_call(["git", "-C", "/repo", "checkout", "--", "."])
         return m, row
-    S = "/tmp/seedrun/%s" % m
+    S = "/tmp/seedrun/%s-%s" % (sdir, m)
     shutil.rmtree(S, ignore_errors=True)
     os.makedirs(S)
     try:
